@@ -747,6 +747,9 @@ struct SchedHarness : Harness {
 		else if (pol < 85) { c.policy = "sticky"; static const double ps[] = {0.05, 0.2, 0.5}; c.sticky_p = ps[k.below(3)]; }
 		else if (pol < 93) c.policy = "newest";
 		else c.policy = "oldest";
+		// a timed wait may time out before it is signalled (its thread was "slow"): legal at any time, so a
+		// third of the runs let timed waits expire at once; code without timed waits is unaffected
+		c.timedwait_timeouts = k.chance(0.33);
 		c.spurious = k.chance(0.25);
 		c.spurious_p = 0.08;
 		c.spurious_max = 1 + (int)k.below(6);
